@@ -3,6 +3,7 @@
   Property theorems only (helper lemmas live in Proofs/).
 -/
 import Proofs.StreamWriterTop
+import Proofs.IO
 import Proofs.StreamReaderTop
 namespace AgeModel
 namespace Props.C12
@@ -274,6 +275,31 @@ theorem lookahead_new (A : AEAD) (C : Nat) (s : Src) : Lookahead A C (Reader.new
 
 /-- non-vacuity: the hypotheses of the theorems above are met by a concrete run -/
 example : (0 : Nat) < 4 ∧ ([1,2,3,4,5,6,7,8,9] : Bytes).length < (2^88 - 1) * 4 := by decide
+
+/-- **The delivery schedule of the source is irrelevant.** `io.ReadFull` (transcribed in
+    `AgeModel.IO`) over ANY schedule — pieces of any sizes, empty reads, data delivered
+    together with the end condition — returns what depends only on the concatenation of the
+    pieces and the kind of end, and leaves a source with the same property. This is what
+    justifies describing a source as `Src` (bytes + end condition) everywhere else. -/
+theorem readfull_schedule_irrelevant (n : Nat) (s t : IO.Sched) (hd : s.flat = t.flat) (hf : s.fail = t.fail) :
+    let r := IO.readFull n s.fail [] s.pieces s.last
+    let q := IO.readFull n t.fail [] t.pieces t.last
+    r.1 = q.1 ∧ r.2.1 = q.2.1 ∧ r.2.2.flat = q.2.2.flat ∧ r.2.2.fail = q.2.2.fail :=
+  IO.readFull_schedule_irrelevant n s t hd hf
+
+/-- … and that common value is the obvious one -/
+theorem readfull_is_spec (n : Nat) (s : IO.Sched) :
+    let r := IO.readFull n s.fail [] s.pieces s.last
+    (r.1, r.2.1) = IO.readFullSpec n s.flat s.fail ∧ r.2.2.flat = s.flat.drop n ∧ r.2.2.fail = s.fail :=
+  IO.readFull_spec n s
+
+/-- non-vacuity: five bytes delivered one at a time with an empty read in between, and the same five
+    delivered in one piece together with EOF, are the same source to a 3-byte and then a 4-byte ReadFull -/
+example :
+    let s : IO.Sched := ⟨[[1], [], [2], [3], [4]], [5], false⟩
+    let t : IO.Sched := ⟨[], [1, 2, 3, 4, 5], false⟩
+    s.flat = t.flat ∧ (IO.readFull 3 false [] s.pieces s.last).1 = [1, 2, 3] ∧ (IO.readFull 3 false [] t.pieces t.last).1 = [1, 2, 3] ∧
+    (IO.readFull 4 false [] (IO.readFull 3 false [] t.pieces t.last).2.2.pieces (IO.readFull 3 false [] t.pieces t.last).2.2.last).2.1 = .unexpectedEOF := by decide
 
 end Props.C12
 end AgeModel
